@@ -108,12 +108,14 @@ def run(ctx):
             # ---- dense sweeps
             lnnu = np.linspace(np.log(1e-3), np.log(1e3), 1201 if quick else 6001)
             nu = np.exp(lnnu)
+            alone = {}
             for z in zs:
                 try:
                     o = make(ff, md, name, nu ** 2, z, Planck15)
                 except Exception as e:
                     viol(f"{name}/ctor-raises", f"{name} raised at z={z}: {e}", {"fit": name, "z": z}); continue
                 f = np.asarray(o.fsigma, float)
+                alone[z] = f
                 n_eval += 1
                 if not np.all(np.isfinite(f)):
                     i = int(np.argmax(~np.isfinite(f)))
@@ -145,6 +147,21 @@ def run(ctx):
                     viol(f"{name}/not-unimodal/{where}", f"{name}: f(sigma) has {changes} monotonicity changes at z={z} (turning points at nu={np.round(turn_nu, 4).tolist()}): not single-peaked", {"fit": name, "z": z, "turning_nu": turn_nu.tolist()})
                 if len(samples) < 3 and z == 1.0:
                     samples.append({"fit": name, "z": z, "peak": pk, "nu_at_peak": float(nu[int(f.argmax())])})
+            # ---- the value depends only on the inputs of the instance: several live instances of one fit (different redshifts),
+            #      all constructed before any is evaluated, give exactly what each gives alone
+            zz = [z for z in (0.0, 2.0, 0.5, 8.0, 1.0) if z in alone]
+            try:
+                objs = [make(ff, md, name, nu ** 2, z, Planck15) for z in zz]
+                for z, o in zip(zz, objs):
+                    f = np.asarray(o.fsigma, float)
+                    n_eval += 1
+                    if not np.array_equal(f, alone[z], equal_nan=True):
+                        dev = float(np.nanmax(np.abs(f / alone[z] - 1)))
+                        viol(f"{name}/depends-on-other-instances", f"{name}: f at z={z} changes when other instances of the fit (z={zz}) are constructed before it is evaluated (max rel. diff {dev:.3g}): the value does not depend on the instance's inputs only",
+                             {"fit": name, "z": z, "constructed_first": zz})
+                        break
+            except Exception as e:
+                pass
         # ---- collapsed fraction of the fits that claim all mass is in haloes
         nfrac = 0
         unit = [("PS", {}, 0.0, 200.0), ("SMT", {"A": None}, 0.0, 200.0), ("Manera", {}, 0.0, 200.0), ("Peacock", {}, 0.0, 200.0),
@@ -175,7 +192,7 @@ def run(ctx):
     out["coverage"] = {
         "sign_theorem_hypotheses_checked_on_defaults": nhyp,
         "evaluations": n_eval, "distinct_nontrivial": n_eval,
-        "rule": "per fit: random permutations/subsets of random inputs (exact comparison), and 1201-point sweeps over nu in [1e-3,1e3] at each z of the grid (sign, finiteness, decay, peak vs PS peak, number of monotonicity changes); unit-normalised fits integrated over ln nu",
+        "rule": "per fit: random permutations/subsets of random inputs (exact comparison), and 1201-point sweeps over nu in [1e-3,1e3] at each z of the grid (sign, finiteness, decay, peak vs PS peak, number of monotonicity changes); several live instances of one fit evaluated after all are constructed vs each alone; unit-normalised fits integrated over ln nu",
         "fits": len(names), "redshifts": zs, "collapsed_fraction_integrals": nfrac, "samples": samples,
         "search": "dense (nu, z) sweeps on the real fits",
     }
